@@ -195,7 +195,9 @@ func BuildIndex(outfile string, idx oci.SignedImageIndex, tags []string) (name.D
 	}
 	const blockSize = 512
 	newOffset := lastStreamPos + lastFileSize
-	newOffset += blockSize - (newOffset % blockSize) // shift to next-nearest block boundary
+	if rem := newOffset % blockSize; rem != 0 {
+		newOffset += blockSize - rem // shift to the next block boundary unless already on one
+	}
 	if _, err := f.Seek(newOffset, io.SeekStart); err != nil {
 		return name.Digest{}, fmt.Errorf("failed to seek to new offset: %w", err)
 	}
